@@ -1,10 +1,13 @@
 """C08 — control hooks form a balanced, truthful protocol."""
 import evplan
+from props import C08_cov
 
 LEVEL_TEXT = ('bounded symbolic equivalence of event logs: the complete sequence of control-hook and action calls (start, apply/apply0, success, failure, '
               'unwind, raise, with their positions) produced by the real match() machinery for named rules over symbolic sub-rules is compared by CBMC with '
               'the reference protocol generated from the PEG semantics, for controls with and without unwind(), with no / void / bool (vetoing or throwing) '
-              'actions, including runs ended by exceptions from must-rules, sub-rules and actions; balance of whole runs follows by induction on frames')
+              'actions, including runs ended by exceptions from must-rules, sub-rules and actions; balance of whole runs follows by induction on frames. '
+              'Coverage facility (props/C08_cov.py): ' + C08_cov.LEVEL_TEXT)
+ASSUMPTIONS = list(C08_cov.ASSUMPTIONS)
 
 S0, S1, S2 = 'sym<0>', 'sym<1>', 'sym<2>'
 GRAMMARS = [
@@ -20,6 +23,10 @@ GRAMMARS = [
 
 
 def plan(ctx):
+    return _protocol(ctx) + C08_cov.plan(ctx)
+
+
+def _protocol(ctx):
     N = 3 if ctx.quick() else 4
     if ctx.quick():
         return (evplan.queries(ctx, 'c08', GRAMMARS, ['plain', 'plain_nu', 'void0', 'bool', 'bool0'], N, modes=('ar', 'ao')) +
